@@ -22,7 +22,43 @@ type mistake struct {
 	do func(b *mocker.Builder) error
 }
 
+// chain describes a mistake made on top of a well-formed configuration: pre configures a target no
+// history touches and hands its result to doWith (the mistaken call); post checks afterwards that
+// the earlier configuration is still in force exactly as made ("" = yes).
+type chain struct {
+	pre    func(b *mocker.Builder) interface{}
+	doWith func(b *mocker.Builder, ctx interface{}) error
+	post   func() string
+}
+
+func vfStub(b *mocker.Builder) interface{} { return b.Func(hw.VF).Return(5).When(1, "x").Return(6) }
+
+// chains by mistake name (the catalogue entry of such a mistake has no do of its own).
+var chains = map[string]chain{
+	"variadic func: chained When with fewer arguments than fixed parameters": {vfStub, func(b *mocker.Builder, ctx interface{}) error {
+		ctx.(*mocker.When).When(1).Return(7)
+		return nil
+	}, vfStill},
+	"variadic func: chained In with fewer arguments than fixed parameters": {vfStub, func(b *mocker.Builder, ctx interface{}) error {
+		ctx.(*mocker.When).In([]interface{}{1}).Return(7)
+		return nil
+	}, vfStill},
+}
+
 func fA(a int) int { return a + 1 }
+
+// vfStill: VF is stubbed with default 5 and When(1,"x") → 6, nothing else.
+func vfStill() string {
+	var a, b2, c int
+	msg, p := vk.Try(func() { a, b2, c = hw.VF(1, "x"), hw.VF(2, "y"), hw.VF(1, "x", 4) })
+	if p {
+		return "calling the stubbed VF panicked: " + vk.Short(msg, 80)
+	}
+	if a != 6 || b2 != 5 || c != 5 {
+		return fmt.Sprintf("VF(1,x)=%d VF(2,y)=%d VF(1,x,4)=%d, configured 6, 5, 5", a, b2, c)
+	}
+	return ""
+}
 
 func catalogue() []mistake {
 	return []mistake{
@@ -163,6 +199,20 @@ func catalogue() []mistake {
 		{"var: non-pointer", func(b *mocker.Builder) error { b.Var(hw.PlainVar).Set(1); return nil }},
 		{"var: Apply with a non-function", func(b *mocker.Builder) error { b.Var(&hw.PlainVar).Apply(42); return nil }},
 		{"unexported var: unknown name", func(b *mocker.Builder) error { b.UnExportedVar("verifh/targets/hw.nope").Set(1); return nil }},
+		// a condition chained onto an existing stub (see chains)
+		{"variadic func: chained When with fewer arguments than fixed parameters", nil},
+		{"variadic func: chained In with fewer arguments than fixed parameters", nil},
+		// struct- and pointer-typed results given a value of another size
+		{"func struct result: Return with a smaller struct", func(b *mocker.Builder) error { b.Func(hw.RS3).Return(struct{ A int }{7}); return nil }},
+		{"func struct result: Return with a larger struct", func(b *mocker.Builder) error {
+			b.Func(hw.RS3).Return(struct{ A, B, C, D int }{7, 8, 9, 10})
+			return nil
+		}},
+		{"func pointer result: Return with an int32", func(b *mocker.Builder) error { b.Func(hw.RPS).Return(int32(5)); return nil }},
+		{"func pointer result: Return with a two-word struct", func(b *mocker.Builder) error {
+			b.Func(hw.RPS).Return(struct{ A, B int }{1, 2})
+			return nil
+		}},
 	}
 }
 
@@ -236,9 +286,15 @@ type Case struct {
 
 func runCase(prefix []hwd.Op, mk mistake) (fail string, judged int) {
 	checker := func(w *hwd.World, m *hwd.Model, hist []hwd.Op) (string, int, int) {
+		do := mk.do
+		ch, chained := chains[mk.name]
+		if chained {
+			ctx := ch.pre(w.B[0])
+			do = func(b *mocker.Builder) error { return ch.doWith(b, ctx) }
+		}
 		before := vk.Copy(hwd.Img.Start, len(hwd.Img.Pristine))
 		exBefore := extras()
-		val, panicked, err := tryVal(func() error { return mk.do(w.B[0]) })
+		val, panicked, err := tryVal(func() error { return do(w.B[0]) })
 		n := 1
 		if !panicked && err == nil {
 			// accepted: is anything different now?
@@ -265,6 +321,12 @@ func runCase(prefix []hwd.Op, mk mistake) (fail string, judged int) {
 		n++
 		if ex := extras(); ex != exBefore {
 			return fmt.Sprintf("untouched-changed: never-mocked functions/variables changed from %s to %s after the rejected %q", exBefore, ex, mk.name), n, 0
+		}
+		if chained {
+			n++
+			if pf := ch.post(); pf != "" {
+				return fmt.Sprintf("behaviour-changed: after the rejected %q the configuration made before it is no longer in force: %s", mk.name, pf), n, 0
+			}
 		}
 		f, j, u := hwd.Behaviour(w, m, allTargets)
 		if f != "" {
